@@ -52,7 +52,7 @@ def canonical_order(site, xs):
     if site == "sort_types":
         return sorted(xs, key=type_key)
     if site == "handlers":
-        return sorted(xs, key=lambda e: handler_key(e[0]))
+        return sorted(xs, key=lambda e: handler_key(e[0] if isinstance(e, tuple) else e))
     if site == "candidates":
         return sorted(xs, key=lambda c: handler_key(c.handler))
     return xs
@@ -223,7 +223,7 @@ def factory(shape, body="plain"):
         return f
     params = parse_shape(shape)
     names = [nm for nm, kind, _ in params if kind != "S"]
-    logd = "{" + ", ".join(f"{nm!r}: {nm}" for nm in names) + "}"
+    logd = "{" + ", ".join(f"{nm!r}: {nm}" for nm, kind, _ in params) + "}"
     same = _call_args_src([p for p in params if p[1] != "S"])
     first = names[0] if names else None
     if body == "plain":
